@@ -353,3 +353,36 @@ def escaping_view_rule(repo: Repo, prop: str, rule_id: str, module_prefixes, flo
                 raw += 1
     r.note(f"{raw} array parameter(s) kept without any conversion are not judged (callers pass literals there)")
     return r
+
+
+def class_state_rule(repo: Repo, prop: str, rule_id: str, floor: int = 5) -> RuleRun:
+    """State shared by all instances: a mutable container bound in the CLASS body (``deleted: Set = set()``,
+    ``corner_indexes = deque(range(4))``) that a method changes in place through ``self`` is one object for every instance - a
+    delete in one mesh removes the block from every other mesh, a rotation of one face's index deque rotates them all."""
+    from .effects import Effects
+
+    eff = Effects(repo)
+    r = RuleRun(prop, rule_id, floor=floor, what="no method changes a class-level mutable container in place (it would be shared by all instances)")
+    for cls in sorted(repo.classes.values(), key=lambda c: c.qualname):
+        for name, expr in sorted(cls.class_vars.items()):
+            mutable = isinstance(expr, (ast.List, ast.Dict, ast.Set)) or (isinstance(expr, ast.Call) and (attr_chain(expr.func) or "").split(".")[-1] in ("set", "list", "dict", "deque", "defaultdict", "OrderedDict"))
+            if not mutable:
+                continue
+            rebound_in_init = any(
+                isinstance(n, (ast.Assign, ast.AnnAssign)) and any(isinstance(t, ast.Attribute) and t.attr == name for t in (n.targets if isinstance(n, ast.Assign) else [n.target]))
+                for c in [*repo.mro(cls), *repo.subclasses(cls)]
+                for m in [c.methods.get("__init__")]
+                if m is not None
+                for n in ast.walk(m.node)
+            )
+            writers = [m for c in [cls, *repo.subclasses(cls)] for m in c.methods.values() if f"self.{name}" in eff.mutated_self_attrs(m)]
+            r.check(
+                not writers or rebound_in_init,
+                cls,
+                f"class-level {name} is never changed in place",
+                f"{cls.name}.{name} is a mutable container created once in the class body ('{ast.unparse(expr)[:40]}') and {writers[0].qualname if writers else ''} changes it in place through self: all "
+                f"instances of {cls.name} share it - what one object records (a deleted operation, a rotated index order) shows up in every other one",
+                writers[0].node if writers else cls.node,
+                key=f"classvar:{name}",
+            )
+    return r
